@@ -6,7 +6,7 @@ import ast
 from sa.engine.callgraph import calls_in, resolve_call
 from sa.engine.cfg import CFG
 from sa.engine.context import Ctx
-from sa.engine.loader import AnalysisError, FuncInfo, dotted, norm, short, walk_own
+from sa.engine.loader import anorm, AnalysisError, FuncInfo, dotted, norm, short, walk_own
 from sa.engine.loops import LoopAnalysis
 from sa.engine.report import Finding, RuleReport
 from sa.rules.common import DT, X, implementers
@@ -256,9 +256,9 @@ def rule_bytes(ctx: Ctx) -> RuleReport:
         if gb is None:
             continue
         body = [s for s in gb.node.body if not (isinstance(s, ast.Expr) and isinstance(s.value, ast.Constant))]
-        txt = [norm(s) for s in body]
+        txt = [anorm(s, gb.node) for s in body]
         fld = "blob" if "blob" in c.fields else "data"
-        fresh = txt in ([f"fl = io.BytesIO(self.{fld})", "fl.seek(0)", "return fl"], [f"return io.BytesIO(self.{fld})"])
+        fresh = txt in ([f"v0 = io.BytesIO(self.{fld})", "v0.seek(0)", "return v0"], [f"return io.BytesIO(self.{fld})"])
         fresh_guarded = txt == [f"if self.{fld} is None: return io.BytesIO()", f"return io.BytesIO(self.{fld})"]
         rewound = txt == [f"if self.{fld} is None: return io.BytesIO()", f"self.{fld}.seek(0)", f"return self.{fld}"]
         if fresh or fresh_guarded or rewound:
@@ -323,7 +323,9 @@ def rule_ref(ctx: Ctx) -> RuleReport:
     pops = [n for n in ast.walk(loops[0]) if isinstance(n, ast.If) and any(isinstance(st, ast.Expr) and isinstance(st.value, ast.Call) and isinstance(st.value.func, ast.Attribute) and st.value.func.attr == "pop" for st in n.body)]
     for p in pops:
         t = norm(p.test)
-        if t in ("normalized", "len(normalized) > 0", "len(normalized) >= 1"):
+        # the stack that is popped: the guard must be "the stack is not empty", whatever the stack is called
+        stack = next((st.value.func.value.id for st in p.body if isinstance(st, ast.Expr) and isinstance(st.value, ast.Call) and isinstance(st.value.func, ast.Attribute) and st.value.func.attr == "pop" and isinstance(st.value.func.value, ast.Name)), None)
+        if stack is not None and t in (stack, f"len({stack}) > 0", f"len({stack}) >= 1"):
             rep.ok({"_normalize_relative_path": f"'..' pops only `if {t}`"})
         else:
             rep.fail(Finding("C14-REF", PPTX, f.qual, t, f"a '..' component is honoured only `if {t}`: targets that climb out of /ppt (../../media/x.png) resolve to the wrong part, so another image's bytes (or none) are returned", line=p.lineno))
